@@ -12,6 +12,7 @@ CONSTANTS
   Reconnect = TRUE
   MaxAttempts = 1
   FixExitOrder = FALSE
+  FixReadErr = TRUE
   FixStaleDelete = FALSE
 INVARIANT OwnResult
 INVARIANT OwnValuesPrefix
